@@ -220,6 +220,55 @@ func main() {
 			})
 		})
 		r.Sample("pair", pairArg{"1.18446744073709551616", "1.1000000000000000000000000"})
+		var l4 []string
+		small := []string{"0", "1", "10", "a", "-"}
+		var g4 func(cur string, n int)
+		g4 = func(cur string, n int) {
+			if n > 0 {
+				l4 = append(l4, cur)
+			}
+			if n == 4 {
+				return
+			}
+			for _, x := range small {
+				if n == 0 {
+					g4(x, 1)
+				} else {
+					g4(cur+"."+x, n+1)
+				}
+			}
+		}
+		g4("", 0)
+		r.Phase(fmt.Sprintf("all ordered pairs of the %d identifier lists of length 1..4 over {0,1,10,a,-}", len(l4)), "complete", func() {
+			r.Parallel(int64(len(l4)), 1, func(w *mc.W, i int64) {
+				for j := range l4 {
+					cnt(w, l4[i], l4[j])
+					pPre.Do(w, pairArg{l4[i], l4[j]})
+				}
+			})
+		})
+		var long []string
+		for _, fam := range [][]string{{"a", "b", "c", "d", "e", "f", "g", "h", "i", "j", "k", "l", "m", "n", "o", "p", "q", "r", "s", "t"}, {"1", "1", "1", "1", "1", "1", "1", "1", "1", "1", "1", "1", "1", "1", "1", "1", "1", "1", "1", "1"}} {
+			for n := 1; n <= 20; n++ {
+				prefix := strings.Join(fam[:n-1], ".")
+				for _, last := range []string{"1", "2", "10", "x", "y", fam[n-1]} {
+					if prefix == "" {
+						long = append(long, last)
+					} else {
+						long = append(long, prefix+"."+last)
+					}
+				}
+			}
+		}
+		r.Phase(fmt.Sprintf("all ordered pairs of %d long identifier lists (1..20 identifiers, shared prefixes, differing last identifier or length)", len(long)), "complete", func() {
+			r.Parallel(int64(len(long)), 1, func(w *mc.W, i int64) {
+				for j := range long {
+					cnt(w, long[i], long[j])
+					pPre.Do(w, pairArg{long[i], long[j]})
+					pHelp.Do(w, pairArg{long[i], long[j]})
+				}
+			})
+		})
 		chain := []string{"alpha", "alpha.1", "alpha.beta", "beta", "beta.2", "beta.11", "rc.1", ""}
 		nums := []uint64{0, 1, 9, 10, 18446744073709551614, 18446744073709551615}
 		pres := []string{"", "alpha", "1"}
